@@ -388,8 +388,9 @@ FAILCLOSED['generate_qemu'] = [
                    'QemuImgInfo._extract_details': {'defaults': {}}, 'QemuImgInfo._parse': {'defaults': {}}},
      'constants': ['QemuImgInfo.SIZE_RE', 'QemuImgInfo.TOP_LEVEL_RE'],
      'imports': {'re': 're', 'strutils': 'oslo_utils.strutils', '_': 'oslo_utils._i18n:_'}},
+    # _extract_bytes calls string_to_bytes(text, return_int=True): the model hard-wires the default unit system (s2b_int)
     {'src': 'oslo_utils/strutils.py', 'mod': 'oslo_utils.strutils',
-     'functions': {'string_to_bytes': {'defaults': {'unit_system': _A, 'return_int': _A}}}}]
+     'functions': {'string_to_bytes': {'defaults': {'unit_system': "'IEC'", 'return_int': 'False'}}}}]
 
 class _TrQ(_Tr):
     """the int-returning methods of QemuImgInfo: values are str-or-None, results are `res Z`"""
